@@ -85,6 +85,14 @@ def make_replay(prop, v):
                verifier_output=[dict(msg=e['msg'], line=e['line'], file=e.get('file')) for e in v['errors']],
                confirmed_on_real_code=False)
     ring = v.get('ring')
+    if v.get('kani'):
+        k = v['kani']
+        rep['counterexample'] = k
+        if k.get('playback_test'):
+            # Kani's concrete playback is the failing input as a unit test of the real (compiled) code
+            rep['confirmed_on_real_code'] = True
+            rep['note'] = "counterexample found by CBMC on the compiled crate; the playback test re-runs the real function on these concrete bytes"
+        return rep
     if not ring:
         rep['note'] = 'the verifier gives no counterexample for this obligation and no candidate input was derived'
         return rep
